@@ -1,4 +1,116 @@
-(* C12 — stub while the harness is being validated *)
-From Murex Require Import Base.Outcome Model.Alter Check.C12.
-Theorem C12_stub : True. Proof. exact I. Qed.
-Print Assumptions C12_stub.
+(* C12 — Structured variables are values, and nested assignment is precise.
+   Only theorem statements here; proofs live in Proof/Alter.v. *)
+From Murex Require Import Base.Outcome Base.Bytes Model.Alter Check.C12 Proof.Alter.
+
+(* After `$v.p = x` succeeds, p reads back x converted to the type of the leaf
+   that was there (want), for documents and paths of any size. *)
+Theorem C12_alter_read_back : forall v p n v',
+  alter v p n = Ok v' -> lookup v' p = want (lookup v p) n.
+Proof. exact alter_read_back. Qed.
+Print Assumptions C12_alter_read_back.
+
+(* ... and that is what `$v.p` (ElementLookup, with its case-insensitive and
+   negative-index fall-backs) reads, whenever the value is not null. *)
+Theorem C12_alter_read_back_murex : forall v p n v' x,
+  alter v p n = Ok v' -> want (lookup v p) n = Some x -> is_null x = false ->
+  elookup v' p = Some x.
+Proof. exact alter_read_back_murex. Qed.
+Print Assumptions C12_alter_read_back_murex.
+
+(* Every path that parts ways with p reads exactly as before. *)
+Theorem C12_alter_frame : forall v p n v' q,
+  alter v p n = Ok v' -> disjoint v p q = true -> lookup v' q = lookup v q.
+Proof. exact alter_frame. Qed.
+Print Assumptions C12_alter_frame.
+
+(* The predicate the check evaluates on the implementation's result: read back
+   + the two documents are identical outside the spine of p. *)
+Theorem C12_alter_precise : forall v p n v',
+  alter v p n = Ok v' -> precise v p n v' = true.
+Proof. exact alter_precise. Qed.
+Print Assumptions C12_alter_precise.
+
+(* Headline for direct calls: for every document, path and new value the
+   model's observation satisfies spec_ok. *)
+Theorem C12_alter_meets_spec : forall v p n,
+  conv_sane n = true -> spec_ok (CAlter v p n (alter_obs v p n)) = true.
+Proof. exact alter_meets_spec. Qed.
+Print Assumptions C12_alter_meets_spec.
+
+(* Variables: distinct names never share a cell (inv), every command keeps
+   that, and so any sequence of commands leaves each variable that none of
+   them assigns exactly as it was. *)
+Theorem C12_no_aliasing_preserved : forall reparse ops s,
+  inv s -> inv (final reparse s ops).
+Proof. intros reparse ops s. apply final_inv. Qed.
+Print Assumptions C12_no_aliasing_preserved.
+
+Theorem C12_copy_independent : forall reparse ops s y,
+  inv s -> Forall (fun o => target o <> Some y) ops ->
+  value (final reparse s ops) y = value s y.
+Proof. intros reparse ops s y. apply copy_independent. Qed.
+Print Assumptions C12_copy_independent.
+
+(* `b = $a`, then any commands that do not assign a (resp. b): a (resp. b)
+   still holds the value it had at the copy. *)
+Theorem C12_copy_then_modify : forall reparse,
+  (forall v, reparse v = v) ->
+  forall s a b v ops,
+  inv s -> a <> b -> value s a = Some v ->
+  let s1 := fst (step reparse s (OCopy b a)) in
+  (Forall (fun o => target o <> Some a) ops -> value (final reparse s1 ops) a = Some v) /\
+  (Forall (fun o => target o <> Some b) ops -> value (final reparse s1 ops) b = Some v).
+Proof. intros reparse H s a b v ops. apply copy_then_modify. exact H. Qed.
+Print Assumptions C12_copy_then_modify.
+
+(* A nested set gives its own variable the value alter computes (so the three
+   alter theorems apply to it) and, by C12_copy_independent, touches no other. *)
+Theorem C12_set_value : forall reparse s x p n c v v',
+  var_find x (vars s) = Some c -> heap_find c (heap s) = Some v -> alter v p n = Ok v' ->
+  value (fst (step reparse s (OSet x p n))) x = Some v'.
+Proof. intros reparse s x p n c v v'. apply step_set_value. Qed.
+Print Assumptions C12_set_value.
+
+(* Non-vacuity. The two design-phase witnesses on the fixed model; spec_ok
+   rejects what the unfixed code did (a: null); the initial states satisfy inv. *)
+Definition ex_n (s : bytes) : newval :=
+  {| nv := JStr s; nv_str := Ok (JStr s); nv_num := Err 1; nv_bool := Ok (JBool true) |}.
+Definition ex_a123 := JObj [([97], JArr [JNum [49]; JNum [50]; JNum [51]])]%N.
+Definition ex_aq1 := JObj [([97], JObj [([113], JNum [49])])]%N.
+
+Example C12_alter_nonvacuous :
+  alter ex_a123 [[97]; [49]]%N (ex_n [104]%N) = Err 1 /\
+  alter ex_aq1 [[97]; [98]; [99]]%N (ex_n [120]%N) =
+    Ok (JObj [([97], JObj [([98], JObj [([99], JStr [120])]); ([113], JNum [49])])])%N /\
+  conv_sane (ex_n [120]%N) = true /\
+  spec_ok (CAlter ex_aq1 [[97]; [98]; [99]]%N (ex_n [120]%N)
+             {| a_kind := 0; a_res := JObj [([97], JNull)]%N |}) = false /\
+  spec_ok (CAlter ex_a123 [[97]; [49]]%N (ex_n [104]%N)
+             {| a_kind := 0; a_res := JObj [([97], JNull)]%N |}) = false /\
+  disjoint ex_aq1 [[97]; [98]; [99]]%N [[97]; [113]]%N = true.
+Proof. vm_compute. repeat split. Qed.
+
+Example C12_copy_nonvacuous :
+  let s := init_state (fun v => v) empty_state [([118; 97]%N, ex_aq1)] in
+  inv s /\ value s [118; 97]%N = Some ex_aq1 /\
+  (* an observation in which modifying the copy also changed the original is rejected *)
+  spec_ok (CHist [([118; 97]%N, ex_aq1)]
+             [OCopy [118; 98]%N [118; 97]%N; OSet [118; 98]%N [[120]]%N (ex_n [121]%N)]
+             {| s_ok := true; s_vals := [([118; 97]%N, Some ex_aq1)]; s_strs := [([118; 97]%N, Some ex_aq1)];
+                s_text := []; s_doc := None |}
+             [{| s_ok := true;
+                 s_vals := [([118; 97]%N, Some ex_aq1); ([118; 98]%N, Some ex_aq1)];
+                 s_strs := [([118; 97]%N, Some ex_aq1); ([118; 98]%N, Some ex_aq1)];
+                 s_text := []; s_doc := None |};
+              {| s_ok := true;
+                 s_vals := [([118; 97]%N, Some (JObj (obj_set [120]%N (JStr [121]%N) [([97]%N, JObj [([113]%N, JNum [49]%N)])])));
+                            ([118; 98]%N, Some (JObj (obj_set [120]%N (JStr [121]%N) [([97]%N, JObj [([113]%N, JNum [49]%N)])])))];
+                 s_strs := [([118; 97]%N, Some (JObj (obj_set [120]%N (JStr [121]%N) [([97]%N, JObj [([113]%N, JNum [49]%N)])])));
+                            ([118; 98]%N, Some (JObj (obj_set [120]%N (JStr [121]%N) [([97]%N, JObj [([113]%N, JNum [49]%N)])])))];
+                 s_text := []; s_doc := None |}]) = false.
+Proof.
+  split; [|split].
+  - apply inv_init. apply inv_empty.
+  - reflexivity.
+  - vm_compute. reflexivity.
+Qed.
